@@ -1,196 +1,304 @@
-import Gv.Model.Fmt.Common
-import Gv.Spec.Fmt
+import Gv.Model.BagHist
 /-!
-The container invariant the parsers rely on (shared by the C03 outcome theorems of every format):
-`Bag.add` keeps the rows rectangular, the names pairwise distinct and the cached length exact,
-under each of the three duplicate-name policies.
+Representation invariant of the container model (C01) and its preservation by the primitives.
+
+`Inv` is the *weak* invariant that survives caller-made name collisions: the index is sound (a key
+points to a row carrying that name) and complete (every row's name is a key); ids are distinct and
+below the allocation counter.  With pairwise distinct names it pins the index down exactly
+(`getByName_of_nodup`).
 -/
 namespace Gv.Proofs.BagInv
-open Gv Gv.Model Gv.Model.Fmt
-open Gv.Spec.Fmt (distinct)
+open Gv Gv.Model
 
-/-- rows rectangular with the cached length (−1 iff no row), names pairwise distinct -/
-def Inv (b : Bag) : Prop :=
-  (b.rows = [] → b.length = -1) ∧
-  (∀ r ∈ b.rows, (r.2.length : Int) = b.length) ∧
-  distinct (b.rows.map (·.1)) = true
+structure Inv (b : Bag) : Prop where
+  ids_nodup : (b.rows.map (·.id)).Nodup
+  ids_lt : ∀ r ∈ b.rows, r.id < b.next
+  idx_sound : ∀ n i, idxLookup n b.index = some i → ∃ r ∈ b.rows, r.id = i ∧ r.name = n
+  idx_complete : ∀ r ∈ b.rows, (idxLookup r.name b.index).isSome = true
 
-theorem inv_empty (i : Nat) : Inv { ignore := i } := by
-  refine ⟨fun _ => rfl, ?_, rfl⟩
-  intro r hr; cases hr
+/-! ### index lemmas -/
 
-theorem distinct_append_singleton : ∀ (l : List Name) (x : Name),
-    distinct (l ++ [x]) = (distinct l && !l.contains x)
-  | [], x => by simp [distinct]
-  | a :: t, x => by
-    simp only [List.cons_append, distinct, distinct_append_singleton t x]
-    have : (t ++ [x]).contains a = (t.contains a || x == a) := by
-      by_cases hxa : x = a
-      · simp [List.contains_eq_mem, List.mem_append, hxa]
-      · have e1 : (x == a) = false := beq_eq_false_iff_ne.mpr hxa
-        have e2 : ¬ a = x := fun e => hxa e.symm
-        simp [List.contains_eq_mem, List.mem_append, e1, e2]
-    rw [this]
-    have h2 : (a :: t).contains x = (x == a || t.contains x) := by
-      by_cases hxa : x = a
-      · simp [List.contains_eq_mem, hxa]
-      · have e1 : (x == a) = false := beq_eq_false_iff_ne.mpr hxa
-        simp [List.contains_eq_mem, e1, hxa]
-    rw [h2]
-    cases t.contains a <;> cases distinct t <;> cases t.contains x <;> cases (x == a) <;> simp
+theorem idxLookup_insert_self (n : String) (i : Nat) (l : List (String × Nat)) :
+    idxLookup n (idxInsert n i l) = some i := by
+  induction l with
+  | nil => simp [idxInsert, idxLookup]
+  | cons p t ih =>
+    obtain ⟨k, v⟩ := p
+    by_cases h : n = k
+    · subst h; simp [idxInsert, idxLookup]
+    · have h' : (n == k) = false := by simpa using h
+      simp [idxInsert, idxLookup, h', ih]
 
-theorem not_hasName (b : Bag) (n : Name) (h : b.hasName n = false) :
-    (b.rows.map (·.1)).contains n = false := by
-  unfold Bag.hasName at h
-  simp only [List.any_eq_false, beq_iff_eq] at h
-  simp only [List.contains_eq_mem, List.mem_map, decide_eq_false_iff_not]
-  rintro ⟨r, hr, e⟩
-  exact h r hr e
+theorem idxLookup_insert_other (n m : String) (i : Nat) (l : List (String × Nat)) (h : m ≠ n) :
+    idxLookup m (idxInsert n i l) = idxLookup m l := by
+  induction l with
+  | nil =>
+    have h' : (m == n) = false := by simpa using h
+    simp [idxInsert, idxLookup, h']
+  | cons p t ih =>
+    obtain ⟨k, v⟩ := p
+    by_cases hk : n = k
+    · subst hk
+      have h' : (m == n) = false := by simpa using h
+      simp [idxInsert, idxLookup, h']
+    · have hk' : (n == k) = false := by simpa using hk
+      by_cases hm : m = k
+      · subst hm; simp [idxInsert, idxLookup, hk']
+      · have hm' : (m == k) = false := by simpa using hm
+        simp [idxInsert, idxLookup, hk', hm', ih]
 
-theorem find_none_not_contains (b : Bag) (n : Name) (h : b.find n = none) :
-    (b.rows.map (·.1)).contains n = false := by
-  unfold Bag.find at h
-  simp only [Option.map_eq_none_iff, List.find?_eq_none, beq_iff_eq] at h
-  simp only [List.contains_eq_mem, List.mem_map, decide_eq_false_iff_not]
-  rintro ⟨r, hr, e⟩
-  exact h r hr e
+theorem idxLookup_append (n : String) (l₁ l₂ : List (String × Nat)) :
+    idxLookup n (l₁ ++ l₂) = (idxLookup n l₁).or (idxLookup n l₂) := by
+  induction l₁ with
+  | nil => simp [idxLookup]
+  | cons p t ih =>
+    obtain ⟨k, v⟩ := p
+    by_cases h : (n == k) = true
+    · simp [idxLookup, h]
+    · simp [idxLookup, h, ih]
 
-theorem freshName_free (b : Bag) (name : Name) : ∀ (fuel idx : Nat) (nm : Name),
-    freshName b name fuel idx = some nm → b.hasName nm = false
-  | 0, _, _, h => by simp [freshName] at h
-  | fuel + 1, idx, nm, h => by
-    simp only [freshName] at h
+theorem deref_some {i : Nat} {rows : List Row} {r : Row} (h : deref i rows = some r) :
+    r ∈ rows ∧ r.id = i := by
+  induction rows with
+  | nil => simp [deref] at h
+  | cons x t ih =>
+    simp only [deref] at h
     split at h
-    · exact freshName_free b name fuel (idx + 1) nm h
-    · rename_i hn
-      simp at h; subst h; simpa using hn
-
-/-- appending a row of the right length under a free name keeps the invariant -/
-theorem inv_push (b : Bag) (hb : Inv b) (nm : Name) (s : Seq)
-    (hfree : (b.rows.map (·.1)).contains nm = false)
-    (hlen : ¬ (b.length != -1 && b.length != (s.length : Int)) = true) :
-    Inv { b with length := s.length, rows := b.rows ++ [(nm, s)] } := by
-  obtain ⟨h1, h2, h3⟩ := hb
-  refine ⟨by simp, ?_, ?_⟩
-  · intro r hr
-    simp only [List.mem_append, List.mem_singleton] at hr
-    cases hr with
-    | inl hr =>
-      have hl := h2 r hr
-      have hne : b.rows ≠ [] := by intro e; rw [e] at hr; cases hr
-      -- b.length is the common length, and it passed the check, so it equals s.length
-      by_cases hm : b.length = -1
-      · rw [hm] at hl; omega
-      · have : b.length = (s.length : Int) := by
-          simp only [bne_iff_ne, ne_eq, Bool.and_eq_true, not_and, Decidable.not_not] at hlen
-          exact hlen hm
-        simp only; rw [hl, this]
-    | inr hr => subst hr; rfl
-  · simp only [List.map_append, List.map_cons, List.map_nil]
-    rw [distinct_append_singleton, h3, hfree]; rfl
-
-theorem add_inv (b : Bag) (hb : Inv b) (name : Name) (s : Seq) (b' : Bag)
-    (h : b.add name s = some b') : Inv b' := by
-  unfold Bag.add at h
-  split at h
-  · -- the name exists
-    split at h
-    · simp at h; subst h; exact hb
-    · split at h
-      · simp at h; subst h; exact hb
-      · split at h
-        · simp at h
-        · rename_i nm hfresh
-          split at h
-          · simp at h
-          · rename_i hlen
-            simp at h; subst h
-            exact inv_push b hb nm s (not_hasName b nm (freshName_free b name _ _ nm hfresh)) hlen
-  · rename_i hfind
-    split at h
-    · simp at h
-    · rename_i hlen
+    · rename_i hx
       simp at h; subst h
-      exact inv_push b hb name s (find_none_not_contains b name hfind) hlen
+      exact ⟨by simp, by simpa using hx⟩
+    · have := ih h
+      exact ⟨List.mem_cons_of_mem _ this.1, this.2⟩
 
-/-- a successful add of a non-empty sequence leaves a non-empty bag with positive length, provided
-the bag was empty or already had positive length -/
-def Pos (b : Bag) : Prop := b.rows ≠ [] → 1 ≤ b.length
+theorem deref_of_mem {rows : List Row} (hn : (rows.map (·.id)).Nodup) {r : Row} (hr : r ∈ rows) :
+    deref r.id rows = some r := by
+  induction rows with
+  | nil => simp at hr
+  | cons x t ih =>
+    simp only [List.map_cons, List.nodup_cons] at hn
+    rcases List.mem_cons.mp hr with rfl | hr
+    · simp [deref]
+    · have hne : ¬ (x.id = r.id) := by
+        intro e
+        exact hn.1 (e ▸ List.mem_map_of_mem (f := (·.id)) hr)
+      have : (x.id == r.id) = false := by simpa using hne
+      simp [deref, this, ih hn.2 hr]
 
-theorem add_pos (b : Bag) (hp : Pos b) (name : Name) (s : Seq) (hs : s ≠ []) (b' : Bag)
-    (h : b.add name s = some b') : Pos b' := by
-  have hspos : (1 : Int) ≤ (s.length : Int) := by
-    have : 0 < s.length := List.length_pos_iff.mpr hs
+/-! ### rebuildIndex establishes the index part of the invariant for any rows -/
+
+theorem rebuildIndexAux_spec (rows : List Row) (idx : List (String × Nat)) (n : String) :
+    idxLookup n (rebuildIndexAux rows idx) =
+      (idxLookup n idx).or ((rows.find? (fun r => r.name == n)).map (·.id)) := by
+  induction rows generalizing idx with
+  | nil => simp [rebuildIndexAux]
+  | cons r t ih =>
+    simp only [rebuildIndexAux]
+    cases hl : idxLookup r.name idx with
+    | some v =>
+      simp only []
+      rw [ih]
+      by_cases hn : r.name = n
+      · subst hn; simp [hl]
+      · have : (r.name == n) = false := by simpa using hn
+        simp [List.find?_cons, this]
+    | none =>
+      simp only []
+      rw [ih, idxLookup_append]
+      by_cases hn : r.name = n
+      · subst hn
+        simp [hl, idxLookup, List.find?_cons]
+      · have h1 : (r.name == n) = false := by simpa using hn
+        have h2 : (n == r.name) = false := by simpa using (fun e => hn e.symm)
+        simp [idxLookup, h2, List.find?_cons, h1, Option.or_assoc]
+
+theorem rebuildIndex_spec (rows : List Row) (n : String) :
+    idxLookup n (rebuildIndex rows) = (rows.find? (fun r => r.name == n)).map (·.id) := by
+  simp [rebuildIndex, rebuildIndexAux_spec, idxLookup]
+
+/-- after `rebuildIndex` the invariant holds whatever the names are (collisions included) -/
+theorem inv_rebuild (b : Bag) (rows : List Row) (hn : (rows.map (·.id)).Nodup) (hl : ∀ r ∈ rows, r.id < b.next) :
+    Inv { b with rows := rows, index := rebuildIndex rows } := by
+  refine ⟨hn, hl, ?_, ?_⟩
+  · intro n i h
+    simp only [rebuildIndex_spec] at h
+    cases hf : rows.find? (fun r => r.name == n) with
+    | none => simp [hf] at h
+    | some r =>
+      simp [hf] at h
+      exact ⟨r, List.mem_of_find?_eq_some hf, h, by simpa using List.find?_some hf⟩
+  · intro r hr
+    simp only [rebuildIndex_spec]
+    cases hf : rows.find? (fun x => x.name == r.name) with
+    | none =>
+      have := List.find?_eq_none.mp hf r hr
+      simp at this
+    | some x => simp
+
+
+/-! ### the invariant only looks at rows (ids, names), index and counter -/
+
+def keys (rows : List Row) : List (Nat × String) := rows.map fun r => (r.id, r.name)
+
+theorem mem_keys {rows : List Row} {r : Row} (h : r ∈ rows) : (r.id, r.name) ∈ keys rows :=
+  List.mem_map.mpr ⟨r, h, rfl⟩
+
+theorem of_mem_keys {rows : List Row} {i : Nat} {n : String} (h : (i, n) ∈ keys rows) :
+    ∃ r ∈ rows, r.id = i ∧ r.name = n := by
+  obtain ⟨r, hr, e⟩ := List.mem_map.mp h
+  simp only [Prod.mk.injEq] at e
+  exact ⟨r, hr, e.1, e.2⟩
+
+theorem ids_of_keys (rows : List Row) : rows.map (·.id) = (keys rows).map Prod.fst := by
+  simp [keys, List.map_map, Function.comp_def]
+
+/-- same (id, name) pairs (as a multiset), same index, counter not smaller: invariant transfers -/
+theorem Inv.transfer {b b' : Bag} (h : Inv b) (hk : (keys b'.rows).Perm (keys b.rows))
+    (hi : b'.index = b.index) (hn : b.next ≤ b'.next) : Inv b' := by
+  refine ⟨?_, ?_, ?_, ?_⟩
+  · rw [ids_of_keys]
+    have := h.ids_nodup
+    rw [ids_of_keys] at this
+    exact (hk.map Prod.fst).nodup_iff.mpr this
+  · intro r hr
+    obtain ⟨r0, hr0, e1, _⟩ := of_mem_keys (hk.subset (mem_keys hr))
+    have := h.ids_lt r0 hr0
     omega
-  unfold Bag.add at h
-  split at h
-  · split at h
-    · simp at h; subst h; exact hp
-    · split at h
-      · simp at h; subst h; exact hp
-      · split at h
-        · simp at h
-        · split at h
-          · simp at h
-          · simp at h; subst h; intro _; exact hspos
-  · split at h
-    · simp at h
-    · simp at h; subst h; intro _; exact hspos
+  · intro n i hl
+    rw [hi] at hl
+    obtain ⟨r, hr, e1, e2⟩ := h.idx_sound n i hl
+    obtain ⟨r', hr', e1', e2'⟩ := of_mem_keys (hk.symm.subset (mem_keys hr))
+    exact ⟨r', hr', e1'.trans e1, e2'.trans e2⟩
+  · intro r hr
+    obtain ⟨r0, hr0, _, e2⟩ := of_mem_keys (hk.subset (mem_keys hr))
+    rw [hi, ← e2]
+    exact h.idx_complete r0 hr0
 
-/-- a successful add leaves at least one row when the bag had one or the name is new -/
-theorem add_rows_ne (b : Bag) (name : Name) (s : Seq) (b' : Bag) (h : b.add name s = some b') :
-    b'.rows ≠ [] := by
-  unfold Bag.add at h
-  split at h
-  · rename_i old hfind
-    have hne : b.rows ≠ [] := by
-      intro e
-      simp [Bag.find, e] at hfind
-    split at h
-    · simp at h; subst h; exact hne
-    · split at h
-      · simp at h; subst h; exact hne
-      · split at h
-        · simp at h
-        · split at h
-          · simp at h
-          · simp at h; subst h; simp
-  · split at h
-    · simp at h
-    · simp at h; subst h; simp
+theorem Inv.congr {b b' : Bag} (h : Inv b) (hr : b'.rows = b.rows) (hi : b'.index = b.index)
+    (hn : b'.next = b.next) : Inv b' :=
+  h.transfer (by rw [hr]) hi (by omega)
 
-/-- the alphabet step does not touch rows or length -/
-theorem finish_rows (b : Bag) (alpha : Nat) (a : Aln) (h : b.finish alpha = some a) :
-    a.rows = b.rows ∧ a.length = b.length := by
-  unfold Bag.finish at h
-  simp only at h
-  split at h
-  · simp at h; subst h; exact ⟨rfl, rfl⟩
-  · split at h
-    · simp at h
-    · split at h
-      · split at h
-        · simp at h; subst h; exact ⟨rfl, rfl⟩
-        · simp at h
-      · split at h
-        · split at h
-          · simp at h; subst h; exact ⟨rfl, rfl⟩
-          · simp at h
-        · simp at h
+theorem inv_nil (b : Bag) : Inv { b with rows := [], index := [] } :=
+  ⟨by simp, by simp, by simp [idxLookup], by simp⟩
 
-/-- invariant + non-empty + positive length is exactly C03's `wellFormed` -/
-theorem wellFormed_of_inv (b : Bag) (hb : Inv b) (hp : Pos b) (hne : b.rows ≠ []) :
-    Spec.Fmt.wellFormed b.length b.rows = true := by
-  obtain ⟨_, h2, h3⟩ := hb
-  unfold Spec.Fmt.wellFormed
-  have e1 : b.rows.isEmpty = false := by
-    cases hr : b.rows with
-    | nil => exact absurd hr hne
-    | cons _ _ => rfl
-  have e2 : decide (1 ≤ b.length) = true := by simpa using hp hne
-  have e3 : (b.rows.all fun r => (r.2.length : Int) == b.length) = true := by
-    simp only [List.all_eq_true, beq_iff_eq]
-    exact h2
-  simp [e1, e2, e3, h3]
+theorem inv_newBag (a : Nat) : Inv (newBag a) := ⟨by simp [newBag], by simp [newBag], by simp [newBag, idxLookup], by simp [newBag]⟩
+theorem inv_newAlign (a : Nat) : Inv (newAlign a) := ⟨by simp [newAlign], by simp [newAlign], by simp [newAlign, idxLookup], by simp [newAlign]⟩
+theorem inv_clear (b : Bag) : Inv (clear b) := (inv_nil b).congr rfl rfl rfl
+theorem inv_clearBase (b : Bag) : Inv (clearBase b) := (inv_nil b).congr rfl rfl rfl
+
+/-! ### AddSequenceChar -/
+
+/-- the state after pushing a row named `nm` -/
+def pushed (f : Bool) (b : Bag) (nm : String) (s : Seq) : Bag :=
+  { b with rows := b.rows ++ [⟨b.next, nm, s⟩], index := idxInsert nm b.next b.index,
+           next := b.next + 1, length := if f then (s.length : Int) else b.length }
+
+theorem addSeqAs_cases (f : Bool) (b : Bag) (n : String) (s : Seq) :
+    (addSeqAs f b n s = (b, false)) ∨ (addSeqAs f b n s = (b, true)) ∨
+    (addSeqAs f b n s = (pushed f b (freshName b.index n) s, false)) := by
+  unfold addSeqAs pushed
+  simp only []
+  split
+  · exact Or.inl rfl
+  · split
+    · exact Or.inl rfl
+    · split
+      · exact Or.inr (Or.inl rfl)
+      · exact Or.inr (Or.inr rfl)
+
+theorem inv_pushed (f : Bool) (b : Bag) (h : Inv b) (nm : String) (s : Seq) : Inv (pushed f b nm s) := by
+  refine ⟨?_, ?_, ?_, ?_⟩
+  · simp only [pushed, List.map_append, List.map_cons, List.map_nil]
+    apply List.nodup_append.mpr
+    refine ⟨h.ids_nodup, by simp, ?_⟩
+    intro a ha c hc
+    simp only [List.mem_singleton] at hc
+    subst hc
+    obtain ⟨r, hr, e⟩ := List.mem_map.mp ha
+    have := h.ids_lt r hr
+    omega
+  · intro r hr
+    simp only [pushed, List.mem_append, List.mem_singleton] at hr ⊢
+    rcases hr with hr | rfl
+    · have := h.ids_lt r hr; omega
+    · simp
+  · intro m i hl
+    simp only [pushed] at hl ⊢
+    by_cases hm : m = nm
+    · subst hm
+      rw [idxLookup_insert_self] at hl
+      simp only [Option.some.injEq] at hl
+      exact ⟨⟨b.next, m, s⟩, by simp, hl, rfl⟩
+    · rw [idxLookup_insert_other _ _ _ _ hm] at hl
+      obtain ⟨r, hr, e1, e2⟩ := h.idx_sound m i hl
+      exact ⟨r, by simp [hr], e1, e2⟩
+  · intro r hr
+    simp only [pushed, List.mem_append, List.mem_singleton] at hr ⊢
+    by_cases hm : r.name = nm
+    · rw [hm, idxLookup_insert_self]; rfl
+    · rw [idxLookup_insert_other _ _ _ _ hm]
+      rcases hr with hr | rfl
+      · exact h.idx_complete r hr
+      · exact absurd rfl hm
+
+theorem inv_addSeqAs (f : Bool) (b : Bag) (h : Inv b) (n : String) (s : Seq) : Inv (addSeqAs f b n s).1 := by
+  rcases addSeqAs_cases f b n s with e | e | e <;> rw [e]
+  · exact h
+  · exact h
+  · exact inv_pushed f b h _ s
+
+theorem inv_addSeq (b : Bag) (h : Inv b) (n : String) (s : Seq) : Inv (addSeq b n s).1 := inv_addSeqAs _ b h n s
+theorem inv_addSeqBase (b : Bag) (h : Inv b) (n : String) (s : Seq) : Inv (addSeqBase b n s).1 := inv_addSeqAs _ b h n s
+
+theorem inv_addAllStop (l : List (String × Seq)) (b : Bag) (h : Inv b) : Inv (addAllStop b l).1 := by
+  induction l generalizing b with
+  | nil => exact h
+  | cons p t ih =>
+    obtain ⟨n, s⟩ := p
+    simp only [addAllStop]
+    split
+    · exact inv_addSeq b h n s
+    · exact ih _ (inv_addSeq b h n s)
+
+theorem inv_addAllStopBase (l : List (String × Seq)) (b : Bag) (h : Inv b) : Inv (addAllStopBase b l).1 := by
+  induction l generalizing b with
+  | nil => exact h
+  | cons p t ih =>
+    obtain ⟨n, s⟩ := p
+    simp only [addAllStopBase]
+    split
+    · exact inv_addSeqBase b h n s
+    · exact ih _ (inv_addSeqBase b h n s)
+
+theorem inv_addAllIgnore (l : List (String × Seq)) (b : Bag) (h : Inv b) : Inv (addAllIgnore b l) := by
+  induction l generalizing b with
+  | nil => exact h
+  | cons p t ih =>
+    obtain ⟨n, s⟩ := p
+    exact ih _ (inv_addSeq b h n s)
+
+/-! ### in-place sequence changes, renames, reorderings -/
+
+theorem keys_map_seq (f : Row → Seq) (rows : List Row) :
+    keys (rows.map fun r => { r with seq := f r }) = keys rows := by
+  simp [keys, List.map_map, Function.comp_def]
+
+theorem inv_mapSeqs (f : Seq → Seq) (b : Bag) (h : Inv b) : Inv (mapSeqs f b) :=
+  h.transfer (by simp only [mapSeqs]; rw [keys_map_seq (fun r => f r.seq)]) rfl (Nat.le_refl _)
+
+theorem inv_renameWith (f : String → String) (b : Bag) (h : Inv b) : Inv (renameWith f b) := by
+  unfold renameWith
+  apply inv_rebuild
+  · simpa [List.map_map, Function.comp_def] using h.ids_nodup
+  · intro r hr
+    obtain ⟨r0, hr0, e⟩ := List.mem_map.mp hr
+    subst e
+    exact h.ids_lt r0 hr0
+
+theorem inv_perm_rows (b : Bag) (h : Inv b) (rows : List Row) (hp : rows.Perm b.rows) :
+    Inv { b with rows := rows } :=
+  h.transfer (hp.map _) rfl (Nat.le_refl _)
+
+theorem inv_sortRows (b : Bag) (h : Inv b) : Inv (sortRows b) :=
+  inv_perm_rows b h _ (List.mergeSort_perm _ _)
 
 end Gv.Proofs.BagInv
